@@ -109,14 +109,20 @@ import os
 QUICK_SKIP = () if os.environ.get("VERIF_NEST") else ("nest",)   # for the heavier setter/cursor checks (C01, C03, C04, C17, C19)
 
 
+def skip2(ctx, sch, msg, keep):
+    """quick tier: of the second family (vs_msg2_*) only the messages named in keep"""
+    return ctx.quick and sch.ns.startswith("vs_msg2") and keep is not None and msg.name not in keep
+
+
 def plan(ctx):
     """(schema xml, std, mode) combinations"""
     out = []
     if ctx.quick:
-        out += [("vs_msg_le.xml", "17", "checked"), ("vs_msg_be.xml", "17", "checked"), ("vs_msg_be.xml", "20", "checked"), ("vs_hdr_c.xml", "17", "checked")]
+        out += [("vs_msg_le.xml", "17", "checked"), ("vs_msg_be.xml", "17", "checked"), ("vs_msg_be.xml", "20", "checked"), ("vs_hdr_c.xml", "17", "checked"),
+                ("vs_msg2_le.xml", "17", "checked"), ("vs_msg2_be.xml", "20", "checked")]
     else:
         for std in ("11", "14", "17", "20"):
-            for x in ("vs_msg_le.xml", "vs_msg_be.xml"):
+            for x in ("vs_msg_le.xml", "vs_msg_be.xml", "vs_msg2_le.xml", "vs_msg2_be.xml"):
                 out.append((x, std, "checked"))
         out += [("vs_msg_le.xml", "17", "unchecked"), ("vs_msg_be.xml", "20", "unchecked")]
         out += [(x, "17", "checked") for x in ("vs_dims.xml", "vs_data_le.xml", "vs_data_be.xml", "vs_hdr_a.xml", "vs_hdr_b.xml", "vs_hdr_c.xml", "vs_hdr_d.xml", "vs_hdr_e.xml")]
